@@ -299,7 +299,7 @@ def oracle_align_history(ctx, n):
 def run(ctx):
     maxlen = 6 if ctx.quick() else 8
     ctx.rule = ('(1) every label vector over {-1,0,1,2} of length <= %d whose labels are 0..max (gaps, interleaved and unordered labels '
-                'included) x 6 reducing functions + sample projection, exact; (1b) labellings with an ABSENT label below the maximum (every vector over {-1..3} up to length %d + random rejected cycles) x {sum, len, lambda}; (2) bin_by_phase on random integer edges/phases/values '
+                'included) x 6 reducing functions + sample projection, exact; (1b) labellings with an ABSENT label below the maximum (every vector over {-1..3} up to length %d + random rejected cycles) x {sum, len, lambda}; (1c) the statistics asked of a Cycles container (cache on / off) and of its iterator; (2) bin_by_phase on random integer edges/phases/values '
                 '(incl. phases on edges, below, above) and on default edges with nbins 2..64; (3) phase_align on cycles of 2..%d '
                 'samples with dyadic increasing phases vs exact rational interpolation, and linear-in-phase quantities; '
                 'non-trivial = has a gap or >= 2 cycles / populated last bin / extrapolated grid points'
@@ -344,6 +344,40 @@ def run(ctx):
         ctx.exact_cmp += 1
         for site, detail in oracle_stats(cv, vals, only=EMPTY_OK)[:1]:
             ctx.problem('impl-violation', site, detail, input=dict(cycles=cv, values=vals, only=list(EMPTY_OK)))
+    # (1c) the same statistics asked of a Cycles CONTAINER (slice cache on / off) or of its iterator instead of the label vector: the
+    # labelling is the container's cycle vector, the answer must be the function of each label's samples all the same
+    from emd import cycles as _cy
+    crs = np.random.RandomState(ctx.seed * 37 + 2)
+    for i in range(8 if ctx.quick() else 150):
+        lens = crs.randint(8, 40, size=crs.randint(2, 7))
+        ph = np.concatenate([np.linspace(0, 2 * np.pi, n, endpoint=False) + 1e-3 for n in lens])
+        vals = crs.randint(-9, 10, size=len(ph)).astype(float)
+        for cache in (True, False):
+            try:
+                C = _cy.Cycles(ph, use_cache=cache)
+                cv = np.asarray(C.cycle_vect).reshape(-1)
+            except Exception:                                           # noqa - constructing containers is C15's business
+                continue
+            K = int(cv.max()) + 1
+            ctx.count(('container', i, cache), K >= 2, 'stats-container-%s' % ('cache' if cache else 'nocache'))
+            ctx.exact_cmp += 1
+            for name, f in FUNCS + [('mean', np.mean)]:
+                if name in ('first', 'last'):
+                    continue
+                exp = [float(f(vals[cv == k])) for k in range(K)]
+                for how, arg in (('Cycles object', C), ('C.iterate()', C.iterate())):
+                    try:
+                        got = np.asarray(_cy.get_cycle_stat(arg, vals, func=f), dtype=float).reshape(-1)
+                    except Exception as e:                              # noqa
+                        got = 'raised %s: %s' % (type(e).__name__, e)
+                    if isinstance(got, str) or got.shape != (K,) or not np.allclose(got, exp, rtol=1e-12, atol=1e-12):
+                        ctx.problem('impl-violation', 'get_cycle_stat', 'func=%s asked of a %s (use_cache=%s): got %s, the function applied to each '
+                                    'cycle\'s samples gives %s' % (name, how, cache, got if isinstance(got, str) else got.tolist(), exp),
+                                    input=dict(container_phase=[float(v) for v in ph], values=[float(v) for v in vals], use_cache=cache, func=name, how=how))
+                        break
+                else:
+                    continue
+                break
     # (2)
     bins = gen_bins(ctx, 400 if ctx.quick() else 10000)
     mo = ctx.model_outputs(IMPORTS, ['(%s, %s, %s)' % (zlist(e), zlist(i), zlist(x)) for e, i, x in bins],
@@ -400,6 +434,15 @@ def replay(rec):
         fresh, _ = cycles.phase_align(IP, X, cycles=CV, npoints=i['npoints'])
         print(float(np.abs(second - fresh).max()))
         return not np.allclose(second, fresh, rtol=1e-9, atol=1e-9)
+    if 'container_phase' in i:
+        C = cycles.Cycles(np.array(i['container_phase']), use_cache=i['use_cache'])
+        cv = np.asarray(C.cycle_vect).reshape(-1)
+        f = dict(FUNCS + [('mean', np.mean)])[i['func']]
+        vals = np.array(i['values'])
+        exp = [float(f(vals[cv == k])) for k in range(int(cv.max()) + 1)]
+        got = np.asarray(cycles.get_cycle_stat(C if i['how'] == 'Cycles object' else C.iterate(), vals, func=f), dtype=float).reshape(-1)
+        print(got.tolist(), exp)
+        return got.shape != (len(exp),) or not np.allclose(got, exp, rtol=1e-12, atol=1e-12)
     if 'values' in i:
         f = oracle_stats(i['cycles'], i['values'], only=i.get('only'))
         print(f)
